@@ -144,10 +144,42 @@ def run_tree(case) -> dict:
             outer.start_soon(task_fn, tree)
             await trio.testing.wait_all_tasks_blocked()
             root = [t for t in outer.child_tasks][0]
-            with warnings.catch_warnings(record=True) as w:
-                warnings.simplefilter("always")
-                st = stackscope.extract(root, recurse_child_tasks=True)
-                stub = stackscope.extract(root, recurse_child_tasks=False)
+            started: List[Any] = []
+            go_on = threading.Event()
+            if case.get("concurrent"):
+                # while this extraction is under way (it has just reached the root task's first frame), another thread begins an
+                # extraction of its own with the opposite options and stays inside it until this one is done (a watchdog thread
+                # dumping something else): forced, not raced
+                inside = threading.Event()
+
+                class Blocker:
+                    pass
+
+                @stackscope.unwrap_stackitem.register(Blocker)
+                def unwrap_blocker(b):
+                    inside.set()
+                    go_on.wait(20)
+                    return None
+
+                @stackscope.elaborate_frame.register(task_fn)
+                def start_other(frame, next_inner):
+                    if not started:
+                        t = threading.Thread(target=lambda: stackscope.extract(Blocker(), with_contexts=False, recurse_child_tasks=False),
+                                             daemon=True)
+                        started.append(t)
+                        t.start()
+                        inside.wait(10)
+                    return None
+            try:
+                with warnings.catch_warnings(record=True) as w:
+                    warnings.simplefilter("always")
+                    st = stackscope.extract(root, recurse_child_tasks=True)
+                    go_on.set()
+                    for t in started:
+                        t.join(10)
+                    stub = stackscope.extract(root, recurse_child_tasks=False)
+            finally:
+                go_on.set()
             res["warnings"] = [str(x.message)[:200] for x in w]
             res["problems"] = compare(st, root, full=True) + compare(stub, root, full=False)
             res["shape"] = shape(st)
@@ -268,6 +300,108 @@ def run_hops(case) -> dict:
     return res
 
 
+def run_two_runs(case) -> dict:
+    """TWO Trio runs in the process: A in the calling thread (where extract() is called), B in a background thread.  The
+    ping-pong chain trio_level(M) -> thread_level(M) -> trio_level(M-1) ... names the run it re-enters explicitly
+    (from_thread.run(..., trio_token=<that run's token>)).  plan 'cross': levels alternate between A and B; 'remote': the whole
+    chain lives in B and is inspected from a task of A; 'same': everything in A.  The extracted stack of the chain's root
+    task must consist of exactly the recorded real frames, in order."""
+    import functools
+    import sys
+
+    import stackscope
+    import trio
+    import trio.testing
+
+    M, plan, end_in_thread = case["hops"], case["plan"], case.get("end_in_thread", False)
+    run_of = {"same": lambda k: "A", "cross": lambda k: "A" if (M - k) % 2 == 0 else "B", "remote": lambda k: "B"}[plan]
+    expected: List[Any] = []
+    result: Dict[str, Any] = {}
+    release = threading.Event()
+    tokens: Dict[str, Any] = {}
+    stops: Dict[str, Any] = {}
+    nurseries: Dict[str, Any] = {}
+    b_ready = threading.Event()
+    box: Dict[str, Any] = {}
+
+    async def trio_level(k, me):
+        expected.append(sys._getframe())
+        if k == M:
+            result["task"] = trio.lowlevel.current_task()
+        if k == 0:
+            tokens["A"].run_sync_soon(box["arrived"].set)
+            await stops[me].wait()
+        else:
+            await trio.to_thread.run_sync(thread_level, k)
+
+    def thread_level(k):
+        expected.append(sys._getframe())
+        if k == 1 and end_in_thread:
+            tokens["A"].run_sync_soon(box["arrived"].set)
+            release.wait(20)
+        else:
+            target = run_of(k - 1)
+            trio.from_thread.run(trio_level, k - 1, target, trio_token=tokens[target])
+
+    async def main_b():
+        box["b_shutdown"] = trio.Event()
+        stops["B"] = trio.Event()
+        tokens["B"] = trio.lowlevel.current_trio_token()
+        async with trio.open_nursery() as nursery:
+            nurseries["B"] = nursery
+            b_ready.set()
+            await box["b_shutdown"].wait()
+
+    def quiesce_b():
+        trio.from_thread.run(trio.testing.wait_all_tasks_blocked, trio_token=tokens["B"])
+
+    async def main_a():
+        box["arrived"] = trio.Event()
+        stops["A"] = trio.Event()
+        tokens["A"] = trio.lowlevel.current_trio_token()
+        await trio.to_thread.run_sync(b_ready.wait)
+        try:
+            async with trio.open_nursery() as nursery:
+                nurseries["A"] = nursery
+                root = run_of(M)
+                start = functools.partial(nurseries[root].start_soon, trio_level, M, root, name="chain")
+                tokens[root].run_sync_soon(start)
+                with trio.fail_after(20):
+                    await box["arrived"].wait()
+                await trio.to_thread.run_sync(quiesce_b)
+                await trio.testing.wait_all_tasks_blocked()
+                try:
+                    with warnings.catch_warnings(record=True) as w:
+                        warnings.simplefilter("always")
+                        result["stack"] = stackscope.extract(result["task"], recurse_child_tasks=True)
+                    result["warnings"] = [str(x.message)[:200] for x in w]
+                finally:
+                    release.set()
+                    stops["A"].set()
+                    tokens["B"].run_sync_soon(stops["B"].set)
+        finally:
+            tokens["B"].run_sync_soon(box["b_shutdown"].set)
+
+    thread_b = threading.Thread(target=trio.run, args=(main_b,), daemon=True)
+    thread_b.start()
+    trio.run(main_a)
+    thread_b.join(10)
+    st = result.get("stack")
+    res: Dict[str, Any] = {"warnings": result.get("warnings", []), "problems": []}
+    if st is None:
+        res["problems"].append("no stack extracted")
+        return res
+    if st.error is not None:
+        res["problems"].append(f"error {st.error!r}")
+    ours = [f.pyframe for f in st.frames if f.pyframe.f_code.co_name in ("trio_level", "thread_level")]
+    names = lambda fs: [f"{f.f_code.co_name}({f.f_locals.get('k')})" for f in fs]
+    if ours != expected:
+        res["problems"].append(f"two Trio runs, plan {plan}, depth {M}: the chain's frames in the extracted stack {names(ours)} are not the real "
+                               f"chain {names(expected)}")
+    res["chain"] = names(expected)
+    return res
+
+
 def run_limiter(case) -> dict:
     """Sibling tasks share a thread limiter that is exhausted: a task whose to_thread.run_sync call is still queued for the
     limiter has no worker thread — its stack must not show another task's thread frames."""
@@ -321,7 +455,7 @@ class C14(PropCheck):
     real_time_limit = 60.0
     rule = ("task trees of depth/fan-out <= 2 (quick) / <= 3 (thorough), each task with 0-2 nested nurseries whose bodies end in "
             "{plain, try/except, try/finally, conditional return}, blocked in the body or in __aexit__; to_thread/from_thread "
-            "chains of depth 0..3; non-trivial = at least one nursery with a child / one hop")
+            "chains of depth 0..3, also across TWO Trio runs with explicit trio_token (same / alternating / remote run); a quarter of the trees are extracted while another thread is inside an extraction with the opposite options; non-trivial = at least one nursery with a child / one hop")
     manifest = {
         "text": "Lean: C14_iso (with recurse_child_tasks the extracted tree determines the task tree: every open nursery once, in nesting order, exactly its child tasks as children, recursively, any depth and fan-out), C14_children_are_child_tasks (one child per child task, in order, with or without recursion), C14_stub (without recursion every child is a frameless stub). These are about the nursery/child-task recursion of the trio glue given that the frame layer reports one context per open nursery (C01's conclusion). The frame layer on real Trio frames, the absence of errors and warnings, and the to_thread/from_thread hops are decided by the oracle on real Trio runs.",
         "note": "Partial: Trio's internals (NurseryManager._nursery, child_tasks, the locals read by the thread-hop elaborators) are third-party state; the hop alternation has no Lean model. Nursery bodies ending in try/except or a conditional return while blocked in __aexit__ hit known finding F2 (InspectionWarning) on CPython 3.12.",
@@ -337,8 +471,11 @@ class C14(PropCheck):
         out = []
         n = 40 if tier == "quick" else 400
         d = 2 if tier == "quick" else 3
-        for _ in range(n):
-            out.append({"k": "tree", "tree": rand_tree(rng, rng.randint(1, d), rng.randint(1, d))})
+        for i in range(n):
+            out.append({"k": "tree", "tree": rand_tree(rng, rng.randint(1, d), rng.randint(1, d)), "concurrent": i % 4 == 3})
+        for plan in ("same", "cross", "remote"):
+            for m in ((1, 2) if tier == "quick" else (1, 2, 3)):
+                out.append({"k": "two_runs", "plan": plan, "hops": m, "end_in_thread": (m + len(plan)) % 2 == 0})
         for cap, tasks in ((1, 3), (2, 5), (1, 2)):
             out.append({"k": "limiter", "capacity": cap, "tasks": tasks})
         for m in list(range(0, 4)) + [21, 22]:        # > 100 non-frame items on one stack: the loop guard must not fire
@@ -354,6 +491,8 @@ class C14(PropCheck):
             return run_limiter(case)
         if case["k"] == "tree":
             return run_tree(json.loads(json.dumps(case)))
+        if case["k"] == "two_runs":
+            return run_two_runs(case)
         return run_hops(case)
 
     def model_line(self, case):
@@ -405,6 +544,8 @@ class C14(PropCheck):
                     d["f2_warnings"] += sum("exception table entry" in w or "trickery failed" in w for w in r.get("warnings", []))
             else:
                 d["hops"] += 1
+        d["two_runs"] = sum(c["k"] == "two_runs" for c in cases)
+        d["with_concurrent_extraction_on_another_thread"] = sum(bool(c.get("concurrent")) for c in cases)
         return d
 
 
